@@ -812,6 +812,9 @@ class Engine:
             if n in ('max', 'min') and len(args) == 2 and all(a.ty.k == 'int' for a in args):
                 a, b = args
                 return vint(z3.If((a.t >= b.t) if n == 'max' else (a.t <= b.t), a.t, b.t))
+            if n == 'abs' and len(args) == 1 and args[0].ty.k in ('int', 'real'):
+                a0 = args[0]
+                return V(a0.ty, z3.If(a0.t >= 0, a0.t, -a0.t))
             if n == 'print':
                 return VNONE
             if n == 'range':
@@ -1059,6 +1062,10 @@ class Engine:
 
     def st_Pass(self, s, st):
         return [st]
+
+    def st_Continue(self, s, st):
+        self.exits.append(Exit('continue', st, line=s.lineno))
+        return []
 
     def st_Import(self, s, st):
         return [st]
@@ -1369,6 +1376,8 @@ class Engine:
         self.exits = []
         ends = self.run_block(s.body, body_st)
         body_exits = self.exits
+        ends += [e.state for e in body_exits if e.kind == 'continue']      # `continue` ends the iteration
+        body_exits = [e for e in body_exits if e.kind != 'continue']
         self.exits = saved_exits + body_exits      # return/raise inside the loop body are real exits
         pos_next = self.loop_pos_next(it, pos)
         for bi, e in enumerate(ends):
@@ -1561,6 +1570,8 @@ class Engine:
         self.pre_sat = str(s.check())     # quantifier-free part; the run-time harness supplies concrete witnesses
         n_norm = 0
         for ex in self.exits:
+            if ex.kind == 'continue':
+                raise OutOfSubset('continue outside a loop')
             if ex.kind == 'return':
                 n_norm += 1
                 self.check_normal_exit(ex, args, H0)
